@@ -176,6 +176,22 @@ def r2_part_discovery(rep, src):
         def topen(it, args, kw):
             if tar_error:
                 raise H.Raised(tar_error, it.h.version, 0)
+            # tarfile.open(mode=...) as documented: 'r' / 'r:*' detect the compression, 'r:' is uncompressed only,
+            # 'r:gz' / 'r:bz2' / 'r:xz' exactly that format (.lzma members are read by the xz decoder with 'r:*' only);
+            # any other filter name is a CompressionError, a wrong one a ReadError
+            mode = kw.get('mode', args[1] if len(args) > 1 else 'r')
+            mode = mode.concrete() if hasattr(mode, 'concrete') else mode
+            if not isinstance(mode, str):
+                raise AnalysisError('tarfile.open is called with a mode that is not a decided string')
+            ext = _osp.splitext(name)[1][1:]
+            fmt = {'gz': 'gz', 'bz2': 'bz2', 'xz': 'xz', 'lzma': 'lzma', 'tar': ''}.get(ext, ext)
+            if mode in ('r', 'r:*'):
+                pass
+            elif mode.startswith('r:') and mode[2:] in ('', 'gz', 'bz2', 'xz'):
+                if mode[2:] != fmt:
+                    raise H.Raised('tarfile.ReadError', it.h.version, 0)
+            else:
+                raise H.Raised('tarfile.CompressionError', it.h.version, 0)
             return it.h.alloc('TarFile', {}, name='@tar')
         heap = H.Heap(mod, hooks={'os.path.splitext': lambda it, args, kw: tuple(_osp.splitext(args[0])), 'tarfile.open': topen})
         heap.symbolic_strings = True
